@@ -301,11 +301,21 @@ def c20_ownership(name, text, k):
     for m in ms:
         for call in ('unclaim_leading_comment', 'unclaim_trailing_comment'):
             if hasattr(m, call) and getattr(m, 'raw_' + call[8:], None) is not None: cands.append((m, call))
+    # ... and comments held as standalone entries of a repeated field: releasing them (nobody owns them then) must make the models unequal as well
+    for m in ms:
+        for n in dir(type(m)):
+            if n.endswith('_with_comments') and any(isinstance(x, models.BlockComment) for x in getattr(m, n)): cands.append((m, n))
     if not cands: return None
     m, call = cands[k % len(cands)]
-    getattr(m, call)()
+    if call.endswith('_with_comments'):
+        getattr(m, call).unclaim_interleaving_comments(); what = f'{type(m).__name__}.{call}.unclaim_interleaving_comments()'
+    else:
+        getattr(m, call)(); what = f'{type(m).__name__}.{call}()'
     if tree.store_text(b.token_store) != text: return None
-    if a == b or b == a: return f'models still equal after {type(m).__name__}.{call}() changed who owns the comment'
+    if a == b or b == a: return f'models still equal after {what} changed who owns the comment'
+    if call.endswith('_with_comments'):
+        getattr(m, call).claim_interleaving_comments()
+        if not (a == b and b == a): return f'models unequal although {what} was undone by claiming the comments again'
     return None
 
 
